@@ -89,6 +89,32 @@ theorem never_zero_never_panic (max : Nat) (ops : List Op) (id : Nat) :
 
 example : (([Op.none, .none, .remove 1, .some 1].foldl step (Slots.new 2)).freed = [1]) ∧
     (([Op.none, .none, .remove 1, .some 1].foldl step (Slots.new 2)).open_ = [1, 2]) := by decide
+/-- At no point of any history are more than `channel_max` channels open (and the open ids are
+    pairwise distinct ids of `1..=channel_max`): the allocator can never over-commit, whatever the
+    mix of explicit ids, automatic ids and closes. -/
+theorem open_count_le_max (max : Nat) (ops : List Op) :
+    let s := ops.foldl step (Slots.new max)
+    s.open_.Nodup ∧ (∀ id ∈ s.open_, 1 ≤ id ∧ id ≤ max) ∧ s.open_.length ≤ max := by
+  intro s
+  have h : Inv s := inv_reachable max ops
+  have hm : s.max = max := by
+    have : ∀ (ops : List Op) (s0 : Slots), Inv s0 → (ops.foldl step s0).max = s0.max := by
+      intro ops
+      induction ops with
+      | nil => intro s0 _; rfl
+      | cons op ops ih =>
+        intro s0 h0
+        rw [List.foldl_cons, ih _ (inv_step s0 op h0).1, (inv_step s0 op h0).2]
+    exact this ops (Slots.new max) (inv_new max)
+  refine ⟨h.1, ?_, ?_⟩
+  · intro id hid
+    have := h.2.1 id hid
+    omega
+  · have := Slots.nodup_bounded_length s.max s.open_ h.1 h.2.1
+    omega
+
+example : (([Op.none, .none, .some 2, .none].foldl step (Slots.new 2)).open_.length) = 2 := by decide
+
 /-- D2: the code before the repair panics on this sequence; the repaired code reports exhaustion. -/
 example : (insertNoneG true ([Op.none, .none, .remove 1, .some 1].foldl (stepG true) (Slots.new 2))).2 = .panic := by decide
 example : (insertNone ([Op.none, .none, .remove 1, .some 1].foldl step (Slots.new 2))).2 = .exhausted := by decide
